@@ -59,8 +59,10 @@ def pre_exclude(case):
 
 
 def case_label(case):
+    from checks.modelcheck import region
     spec = case["spec"]
-    return spec["op"] + (":" + spec["name"] if spec["op"] == "reduce" else "")
+    T, V = M.decode(case["a"])
+    return spec["op"] + (":" + spec["name"] if spec["op"] == "reduce" else "") + "|" + region(T, V, spec)
 
 
 def run_case(case):
@@ -69,10 +71,19 @@ def run_case(case):
     Tb, Vb = M.decode(b)
     if not M.same_value(Va, Vb):
         raise HarnessError("generator produced two encodings with different values")
-    ka, ra, tva = run_checked(a, spec)
-    kb, rb, tvb = run_checked(b, spec)
+    from checks.modelcheck import region
+    if spec["op"] == "reduce" and ("'string'" in repr(Ta) or "'bytes'" in repr(Ta)):
+        return {"discarded": "reducers are defined on numeric leaves, not on strings"}
     op = spec["op"] + (":" + spec["name"] if spec["op"] == "reduce" else "")
-    bucket_tail = op
+    bucket_tail = op + "|" + region(Ta, Va, spec)
+    try:
+        ka, ra, tva = run_checked(a, spec)
+        kb, rb, tvb = run_checked(b, spec)
+    except Violation as v:
+        kind_, _, rest = v.bucket.partition(":")
+        detail = rest.split(":", 1)[1] if ":" in rest else ""
+        v.bucket = "%s:%s" % (kind_, bucket_tail) + ("#" + detail if detail else "")
+        raise
     if ka != kb:
         raise Violation("errorclass:" + bucket_tail, "%s: encoding A gives %s, encoding B gives %s" % (op, ka, kb),
                         expected=[kb, str(rb)[:300]], observed=[ka, str(ra)[:300]])
